@@ -14,7 +14,7 @@ def one(args):
     tmp = tempfile.mkdtemp(prefix='cbv-eq-')
     root = os.path.join(tmp, 'repo')
     try:
-        subprocess.run(['rsync', '-a', '--exclude', 'target', '--exclude', '.git', '/repo/', root + '/'], check=True)
+        subprocess.run(['rsync', '-a', '--exclude', 'target', '--exclude', '.git', os.environ.get('CBV_BASE_REPO', '/repo') + '/', root + '/'], check=True)
         r = subprocess.run(['patch', '-p1', '-s', '-i', patch], cwd=root, stdout=subprocess.PIPE, stderr=subprocess.STDOUT, text=True)
         if r.returncode != 0:
             return (label, n, 'patch-failed', r.stdout[-200:])
